@@ -72,7 +72,7 @@ def c17() -> int:
     c = Check("C17", "explicit-state BFS of the real step function (FSX), deviation-bounded")
     c.assumptions += ["exhaustive only inside the closed worlds and bounds listed under coverage.explorations"]
     quick = tier() == "quick"
-    K, H = (3, 8) if quick else (5, 10)
+    K, H = (3, 8) if quick else (4, 10)
     needs = ["c17:dispatchtrip_state", "default:DispatchTrip>OutOfService", "default:DispatchTrip>ServicingTrip",
              "instr:DispatchTrip:DispatchStation:DispatchStation", "instr:DispatchTrip:Idle:Idle",
              "instr:DispatchTrip:DispatchTrip:DispatchTrip", "c03:cancel_while_vehicle_en_route"]
@@ -158,7 +158,7 @@ def c09() -> int:
         needs=["c09:refused:ChargeStation", "c09:refused:ReserveBase", "c09:refused:ChargeBase", "c09:refused:DispatchStation", "c09:refused:DispatchTrip", "c09:entered:ChargeBase"])
     fsx(c, RES + ({"variant": "core", "name": "W-res/atomic-pairs", "atomic_pairs": True},), ("hivemc.bundles", "c09_atomicity", {}), K=1, H=4 if quick else 5,
         needs=["c09:pairs"])
-    fsx(c, ("hivemc.w_prec", "make", {}), ("hivemc.bundles", "c09_precedence", {}), K=2 if quick else 4, H=6 if quick else 7,
+    fsx(c, ("hivemc.w_prec", "make", {}), ("hivemc.bundles", "c09_precedence", {}), K=2 if quick else 3, H=6 if quick else 8,
         needs=["c09:winner:driver", "c09:winner:G1", "c09:winner:G2", "c09:both_generators_same_vehicle"])
     return c.finish()
 
